@@ -15,6 +15,7 @@ extern "C" {
 #define __GNU_MP_VERSION_PATCHLEVEL 1
 typedef unsigned long mp_limb_t; typedef long mp_limb_signed_t; typedef long mp_size_t; typedef unsigned long mp_bitcnt_t; typedef long mp_exp_t;
 typedef struct { int _mp_alloc; int _mp_size; /* sign: -1, 0, 1 */ unsigned long _vf_lo, _vf_hi; } __mpz_struct;
+typedef __mpz_struct MP_INT;
 typedef __mpz_struct mpz_t[1];
 typedef __mpz_struct *mpz_ptr; typedef const __mpz_struct *mpz_srcptr;
 typedef struct { int _vf_seed; } __gmp_randstate_struct; typedef __gmp_randstate_struct gmp_randstate_t[1];
@@ -222,5 +223,8 @@ VFD(int, mpz_fits_sint_p, (mpz_srcptr))
 #define mpz_fits_sint_p __gmpz_fits_sint_p
 #ifdef __cplusplus
 }
+/* declared by the real gmp.h as well (defined by libgmpxx there, by libtmcg's mpz_helper.cc here) */
+std::ostream& operator<<(std::ostream&, mpz_srcptr);
+std::istream& operator>>(std::istream&, mpz_ptr);
 #endif
 #endif
